@@ -42,6 +42,16 @@ def observe(sc, add, build, make_point, oracle_outcome, oracle_partial, point, x
         add(f"(a == b) is {want_eq}  [a={a!r}, b={b!r}]", lambda: 1.0 if ((a == b) is want_eq) else 0.0, ("value", 1.0))
         if want_eq:
             add("equal objects have equal hashes", lambda: 1.0 if hash(a) == hash(b) else 0.0, ("value", 1.0))
+        # equality must not depend on what was computed before: use both objects at different points
+        import smoothmath as sm
+        for obj, val in ((a, 1.5), (b, -2.25)):
+            names = sorted(getattr(obj, "_variable_names", []) or [])
+            try:
+                obj.at(sm.Point(**{n: val + i for i, n in enumerate(names)}))
+            except Exception:
+                pass
+        add(f"after evaluating a and b at different points: (a == b) is {want_eq}",
+            lambda: 1.0 if ((a == b) is want_eq) else 0.0, ("value", 1.0))
         return
     if kind == "value_repr":
         a = decode(sc["a"], build, make_point)
